@@ -186,6 +186,8 @@ class CompRel:
                     break
             if order:
                 break
+        if not self.rules:
+            raise AnalysisError('transform_compressible: the first-match search over the criteria table is not recognised (no rule could be read)')
         self.rules.sort(key=lambda ru: order.index(ru.key) if ru.key in order else 999)
         self.order = order
         for ru in self.rules:
